@@ -104,6 +104,38 @@ def snapshot_state(ns, modules):
                 except Exception:
                     pass
     ns._state_snapshot = snap
+    # further per-process state: mutable default arguments, functools caches, other empty-at-load containers (WeakKeyDictionary ...)
+    defaults, caches, clearable = [], [], []
+    for name in modules:
+        mod = getattr(ns, name, None)
+        if mod is None:
+            continue
+        for k, v in list(vars(mod).items()):
+            if k.startswith('__'):
+                continue
+            funcs = [v]
+            if isinstance(v, type) and getattr(v, '__module__', None) == getattr(mod, '__name__', None):
+                funcs = [getattr(f, '__func__', f) for f in vars(v).values()]
+            for f in funcs:
+                f = getattr(f, '__wrapped__', f) if not hasattr(f, '__defaults__') else f
+                if hasattr(f, 'cache_clear'):
+                    caches.append(f)
+                d = getattr(f, '__defaults__', None)
+                if d and any(type(x) in (dict, list, set) for x in d):
+                    try:
+                        defaults.append((f, copy.deepcopy(d)))
+                    except Exception:
+                        pass
+            if hasattr(v, 'cache_clear'):
+                caches.append(v)
+            if (not callable(v) and type(v) not in (dict, list, set) and hasattr(v, 'clear') and hasattr(v, '__len__')
+                    and type(v).__module__ not in ('builtins',)):
+                try:
+                    if len(v) == 0:
+                        clearable.append(v)
+                except Exception:
+                    pass
+    ns._state_defaults, ns._state_caches, ns._state_clearable = defaults, caches, clearable
     return snap
 
 
@@ -123,6 +155,24 @@ def reset_state(ns):
             cur.update(copy.deepcopy(v))
         elif isinstance(cur, list):
             cur[:] = copy.deepcopy(v)
+    for f, d in getattr(ns, '_state_defaults', []):
+        cur = f.__defaults__
+        for c, v in zip(cur, d):
+            if type(v) in (dict, set) and c != v:
+                c.clear()
+                c.update(copy.deepcopy(v))
+            elif type(v) is list and c != v:
+                c[:] = copy.deepcopy(v)
+    for f in getattr(ns, '_state_caches', []):
+        try:
+            f.cache_clear()
+        except Exception:
+            pass
+    for v in getattr(ns, '_state_clearable', []):
+        try:
+            v.clear()
+        except Exception:
+            pass
     # containers that did not exist at load time but are module-level now (created lazily) are dropped
     for name in {n for (n, _k) in getattr(ns, '_state_snapshot', {})} | set(getattr(ns, '_modules', [])):
         pass
